@@ -287,6 +287,11 @@ def _impl(tier, seed, search):
                 if ok and len(r) == 3:
                     for j_, t_ in enumerate((0.0, thz, -thz)): L.close(f'{nm_}.exp({fm_})', r[j_], ref_(t_), TOL, max(1.0, geom.tmag(ref_(t_))), dict(S=Sz_.S, k=j_), sig=f'{nm_}.exp(theta)')
                 elif ok: L.check(f'{nm_}.exp({fm_}):len', False, dict(S=Sz_.S), f'{nm_}.exp of three angles gives {len(r)} motions', sig=f'{nm_}.exp(theta)')
+        for un_ in ('deg', 'rad'):
+            ok, r = L.noraise(f'Twist.exp(units={un_}) without theta', lambda: (S3z.exp(units=un_).A, S2z.exp(units=un_).A if abs(S2z.S[2]) > 0 else None), dict(S=S3z.S, units=un_), 'S.exp(units=...) with theta omitted')
+            if ok:
+                L.close(f'Twist3.exp(units={un_})', r[0], ref_exp(skewa(S3z.S)), TOL, max(1.0, geom.tmag(r[0])), dict(S=S3z.S, units=un_), what='S.exp(units=...) with theta omitted is not exp(S): the implicit parameter 1 is not an angle to convert', sig='Twist3.exp(theta)')
+                if r[1] is not None: L.close(f'Twist2.exp(units={un_})', r[1], ref_exp(np.array([[0, -S2z.S[2], S2z.S[0]], [S2z.S[2], 0, S2z.S[1]], [0, 0, 0]])), TOL, max(1.0, geom.tmag(r[1])), dict(S=S2z.S, units=un_), sig='Twist2.exp(theta)')
         ok, r = L.noraise('trexp(S, negative theta)', lambda: (b.trexp(S3z.S, -thz), b.trexp(skewa(S3z.S), -thz), b.trexp2(S2z.S, -thz)), dict(S=S3z.S, theta=-thz), 'trexp(S, theta) with negative theta')
         if ok:
             L.close('trexp(S,-theta)', r[0], ref_exp(skewa(S3z.S * -thz)), TOL, max(1.0, geom.tmag(r[0])), dict(S=S3z.S, theta=-thz), what='trexp(S, theta) with a negative theta is not exp(theta S)', sig='exp(S,theta)')
